@@ -901,6 +901,34 @@ def sort_items(interp, st, items, key, reverse, node):
 
 
 import functools as _functools
+import itertools as _itertools
+
+
+def _chain_items(interp, st, iterables, node):
+    def go(i, st, acc):
+        if i == len(iterables):
+            yield st, st.alloc(HList(items=acc))
+            return
+        for s1, items in interp.iter_concrete(st, iterables[i], node):
+            if isinstance(items, Raise):
+                yield s1, items
+            else:
+                yield from go(i + 1, s1, acc + list(items))
+    yield from go(0, st, [])
+
+
+@tmodel(_itertools.chain)
+def t_chain(interp, st, args, kwargs, node=None):
+    yield from _chain_items(interp, st, list(args), node)
+
+
+@model(_itertools.chain.from_iterable)
+def m_chain_from_iterable(interp, st, args, kwargs, node=None):
+    for s1, outer in interp.iter_concrete(st, args[0], node):
+        if isinstance(outer, Raise):
+            yield s1, outer
+        else:
+            yield from _chain_items(interp, s1, list(outer), node)
 
 
 @model(_functools.reduce)
@@ -1064,6 +1092,10 @@ def m_from_bytes(interp, st, args, kwargs, node=None):
         yield st, VInt(int.from_bytes(v.v, unlift(order), signed=unlift(signed)))
         return
     tt = v.term()
+    if z3.is_app(tt) and tt.decl().name() == ('int_to_le' if unlift(order) == 'little' else 'int_to_be') and not unlift(signed):
+        # from_bytes(to_bytes(v, k)) == v: the term was built from an in-range v (guarded where it was created)
+        yield st, mk_int(tt.arg(0))
+        return
     if z3.is_app(tt) and tt.decl().kind() == z3.Z3_OP_STR_FROM_CODE:
         # one byte produced from a code in 0..255 (guarded where it was built): its value is the code
         val = tt.arg(0)
@@ -1199,7 +1231,7 @@ def int_method(interp, st, recv, name, args, kwargs, node):
         if isinstance(t, int):
             yield st, VInt(t.bit_length())
             return
-        for bound in (8, 16, 32, 64, 128, 256, 512):
+        for bound in (8, 16, 32, 64):
             if st.entails(z3.And(t >= 0, t < 2 ** bound)):
                 alts = [(t == 0, VInt(0))] + [(z3.And(t >= 2 ** (b - 1), t < 2 ** b), VInt(b)) for b in range(1, bound + 1)]
                 bm.note(interp, 'int.bit_length(bounded case split)')
